@@ -5,6 +5,7 @@ package main
 import (
 	"fmt"
 	"go/types"
+	"strings"
 )
 
 type lockState struct {
@@ -31,6 +32,8 @@ type trackState struct {
 	readOnly map[*Cell]bool // must never be written (e.g. Full)
 	vector   []ReplayVal    // inputs of the path this log comes from (for native replay)
 	params   map[string]int
+	// storeSplit: two critical sections of the call both touch the node/leaf storage
+	storeSplit bool
 }
 
 type ownRec struct {
@@ -164,6 +167,37 @@ func (in *Interp) trackStop() {
 		if ls.writer || ls.readers > 0 {
 			t.violations = append(t.violations, "lock still held at return")
 		}
+	}
+	// one call = one critical section: guarded accesses in two separate sections leave a window in
+	// which a block can be applied, so that the call's result is correct for no single state
+	sections, depth, inSection := 0, 0, false
+	storeSections, inStore := 0, false
+	for _, e := range t.events {
+		switch e.Kind {
+		case "Lock", "RLock":
+			depth++
+		case "Unlock", "RUnlock":
+			depth--
+			if depth <= 0 {
+				depth = 0
+				inSection = false
+				inStore = false
+			}
+		case "R", "W":
+			if e.Held != "" && !inSection {
+				inSection = true
+				sections++
+			}
+			// sections that touch the node or leaf storage can be told apart in the native replay
+			if e.Held != "" && !inStore && (strings.Contains(e.Loc, "Nodes") || strings.Contains(e.Loc, "CachedLeaves")) {
+				inStore = true
+				storeSections++
+			}
+		}
+	}
+	t.storeSplit = storeSections > 1
+	if sections > 1 {
+		t.violations = append(t.violations, fmt.Sprintf("guarded accesses split over %d critical sections (the lock is released in between)", sections))
 	}
 	in.tracks = append(in.tracks, t)
 }
